@@ -1,0 +1,150 @@
+// Licensed to Apache Software Foundation (ASF) under one or more contributor
+// license agreements. See the NOTICE file distributed with
+// this work for additional information regarding copyright
+// ownership. Apache Software Foundation (ASF) licenses this file to you under
+// the Apache License, Version 2.0 (the "License"); you may
+// not use this file except in compliance with the License.
+// You may obtain a copy of the License at
+//
+//     http://www.apache.org/licenses/LICENSE-2.0
+//
+// Unless required by applicable law or agreed to in writing,
+// software distributed under the License is distributed on an
+// "AS IS" BASIS, WITHOUT WARRANTIES OR CONDITIONS OF ANY
+// KIND, either express or implied.  See the License for the
+// specific language governing permissions and limitations
+// under the License.
+
+//go:build verif
+
+// Contracts for the trace engine's snapshot reference counting, file snapshots and part-level time pruning (comment-only; read by /verif/govc).
+
+package trace
+
+//@ section C19 C05
+// ---- snapshot reference counting and file snapshots of a shard table ----
+//@ func partWrapper.incRef
+//@   mode int
+//@   opt wrap int32
+//@   requires pw != nil && pw.ref < 2147483647
+//@   modifies pw.ref
+//@   ensures  pw.ref == old(pw.ref) + 1
+//@ func partWrapper.decRef
+//@   assumed gives one reference back; at zero the part is closed and, if flagged removable, its files are deleted in a goroutine (not modelled)
+//@   requires pw != nil
+//@   modifies pw.ref
+//@   ensures  pw.ref == old(pw.ref) - 1
+//@ func snapshot.IncRef
+//@   mode int
+//@   opt wrap int32
+//@   requires s != nil && s.ref < 2147483647
+//@   modifies s.ref
+//@   ensures  s.ref == old(s.ref) + 1
+//@ func snapshot.incRef
+//@   mode int
+//@   opt wrap int32
+//@   requires s != nil && s.ref < 2147483647
+//@   modifies s.ref
+//@   ensures  s.ref == old(s.ref) + 1
+//
+// decRef: while other holders remain nothing else changes; the last holder releases every part of the snapshot exactly once
+//@ spec func partsOK(s *snapshot) bool = (forall k :: 0 <= k && k < len(s.parts) ==> s.parts[k] != nil && pidx(s.parts[k]) == 0) && (forall a, b :: 0 <= a && a < b && b < len(s.parts) ==> ref(s.parts[a]) != ref(s.parts[b]))
+//@ func snapshot.DecRef
+//@   mode int
+//@   opt wrap int32
+//@   requires s != nil && partsOK(s) && s.ref > -2147483648
+//@   modifies s.ref
+//@   modifies s.parts
+//@   modifies allof(partWrapper.ref)
+//@   ensures  counted: s.ref == old(s.ref) - 1
+//@   ensures  still-held: old(s.ref) > 1 ==> samehdr(s.parts, old(s.parts)) && (forall p *partWrapper :: p.ref == old(p.ref))
+//@   ensures  last-holder: old(s.ref) <= 1 ==> len(s.parts) == 0 && (forall k :: 0 <= k && k < old(len(s.parts)) ==> old(s.parts[k]).ref == old(old(s.parts[k]).ref) - 1)
+//@   loop 0 invariant samehdr(s.parts, old(s.parts)) && s.ref == old(s.ref) - 1
+//@   loop 0 invariant released: forall k :: 0 <= k && k < range_i ==> s.parts[k].ref == old(s.parts[k].ref) - 1
+//@   loop 0 invariant pending: forall k :: range_i <= k && k < len(s.parts) ==> s.parts[k].ref == old(s.parts[k].ref)
+//@ func snapshot.decRef
+//@   mode int
+//@   opt wrap int32
+//@   requires s != nil && partsOK(s) && s.ref > -2147483648
+//@   modifies s.ref
+//@   modifies s.parts
+//@   modifies allof(partWrapper.ref)
+//@   ensures  counted: s.ref == old(s.ref) - 1
+//@   ensures  still-held: old(s.ref) > 1 ==> samehdr(s.parts, old(s.parts)) && (forall p *partWrapper :: p.ref == old(p.ref))
+//@   ensures  last-holder: old(s.ref) <= 1 ==> len(s.parts) == 0 && (forall k :: 0 <= k && k < old(len(s.parts)) ==> old(s.parts[k]).ref == old(old(s.parts[k]).ref) - 1)
+//
+// lock discipline of the published snapshot pointer: the (ghost) flag says "tst's read lock is held"
+//@ ghost var tableReadLocked bool
+//@ func sync.RWMutex.RLock
+//@   assumed read-locks the table (blocks replaceSnapshot, which takes the write lock)
+//@   modifies tableReadLocked
+//@   ensures  tableReadLocked
+//@ func sync.RWMutex.RUnlock
+//@   assumed releases the read lock
+//@   modifies tableReadLocked
+//@   ensures  !tableReadLocked
+//@ func tsTable.currentSnapshot
+//@   mode int
+//@   opt wrap int32
+//@   modifies tableReadLocked
+//@   at-call snapshot.incRef requires pinned-under-the-read-lock: tableReadLocked && s == tst.snapshot
+//@   requires tst != nil && (tst.snapshot == nil || tst.snapshot.ref < 2147483647)
+//@   modifies tst.snapshot.ref
+//@   ensures  result == tst.snapshot
+//@   ensures  result != nil ==> result.ref == old(tst.snapshot.ref) + 1
+//
+//@ ghost var fileSnapshotRemoved bool
+//@ func fs.FileSystem.CreateHardLink
+//@   assumed file system: hard-links a part directory (all of its files) into the destination
+//@ func fs.FileSystem.MustRMAll
+//@   assumed file system: removes the destination directory
+//@   modifies fileSnapshotRemoved
+//@   ensures  fileSnapshotRemoved
+//@ func fs.FileSystem.MkdirPanicIfExist
+//@   assumed file system
+//@ func index.Store.TakeFileSnapshot
+//@   assumed inverted index (bluge) snapshot of the element index - external
+//@ func fs.FileSystem.SyncPath
+//@   assumed file system
+//@ func fs.FileSystem.CreateFile
+//@   assumed file system
+//@ func fs.File.Write
+//@   assumed file system
+//@ func fs.Writer.Write
+//@   assumed file system
+//@ func filepath.Join
+//@   assumed path manipulation
+//@   pure
+//@ func filepath.Base
+//@   assumed path manipulation
+//@   pure
+//@ func filepath.Dir
+//@   assumed path manipulation
+//@   pure
+//@ func json.Marshal
+//@   assumed encoding/json
+//@   pure
+//@ func snapshotName
+//@   assumed formatting of an epoch
+//@   pure
+//@ decl func pnameOf(id uint64) string
+//@ func partName
+//@   assumed formatting of a part id (16 hex digits): a function of the id
+//@   pure
+//@   ensures result == pnameOf(epoch)
+//@ func partWrapper.ID
+//@   assumed reads the id from the part's metadata
+//@   pure
+//@   requires pw != nil && pw.p != nil
+//@   ensures result == pw.p.partMetadata.ID
+// the manifest lists EVERY part of the snapshot it is given, in order (in-memory parts included; the loader intersects
+// the list with the part directories that exist)
+//@ func tsTable.createMetadata
+//@   mode int
+//@   requires tst != nil && snapshot != nil && (forall k :: 0 <= k && k < len(snapshot.parts) ==> snapshot.parts[k] != nil && snapshot.parts[k].p != nil)
+//@   allow panic when true
+//@   at-call json.Marshal requires lists-every-part: len(partNames) == len(snapshot.parts) && (forall k :: 0 <= k && k < len(snapshot.parts) ==> partNames[k] == pnameOf(snapshot.parts[k].p.partMetadata.ID))
+//@   loop 0 invariant len(partNames) == range_i && (forall k :: 0 <= k && k < range_i ==> partNames[k] == pnameOf(snapshot.parts[k].p.partMetadata.ID))
+//
+// tsTable.TakeFileSnapshot of the trace engine ranges over a map of secondary indexes (maps are not modelled): not under contract.
+//
